@@ -325,6 +325,8 @@ pub fn run_c05(args: &Args, tier: &str, seed: u64) -> Report {
             ("withlang", _) => 1,
             ("tokens", "thorough") => 5,
             ("tokens", _) => 11,
+            ("bytes12", "thorough") => 7,
+            ("bytes12", _) => 41,
             ("mutations", "thorough") => 4,
             ("mutations", _) => 9,
             _ => 1,
